@@ -24,8 +24,10 @@
       allPaths allDirs allFiles entries                                    +    +    state unchanged
     mkfile mkdirP mkdirM(any mode) writeAll appendAll writeLines
       appendLines appendLine setCwd                                        +    +    StepAInv
-    mkfileM(any mode) chmod(any mode) chmodB(any opts, follow too)         +    +    StepAInv (set_mode ORs
-                                                                                     the type bits back in)
+    mkfileM(any mode) chmod(any mode) chmodB(any opts, follow too)         +    +    StepAInv (set_mode keeps the
+                                                                                     permission bits of the
+                                                                                     argument and ORs the
+                                                                                     entry's type bits in)
     chown chownB(any opts)                                                 +    +    StepAInv
     hWrite hAppend hPut hFlush hDrop                                       +    +    StepAInv
     remove removeAll symlink                                               +    +    Tr calculus (ReachInv)
@@ -34,9 +36,12 @@
     copyB with follow = true                                               -    -    witnesses C01R_copy_follow_*
 
   So, contrary to the expected suspects, mode arguments with foreign type bits or bits above 0o7777 do
-  NOT break `EntriesOk` (`set_mode` / `MemfsEntryOpts::mode` OR the entry's own type bits into whatever is
-  passed and `EntriesOk` only asks that those bits are present); handle operations and `symlink` are
-  harmless too.  The only offender is `copy_b(..).follow(true)`.
+  NOT break `EntriesOk`: since the `mode_type_bits` repair `set_mode` / `MemfsEntryOpts::mode` mask
+  whatever is passed with 0o7777 before OR-ing the entry's own type bits in, so every stored mode is
+  canonical (type bits of the kind plus permission bits) — which is what `EntriesOk` now asks for
+  (before the repair it could only ask that the type bits of the kind are present; foreign bits
+  survived, finding `mode_type_bits`, see Props/C02M).  Handle operations and `symlink` are harmless
+  too.  The only offender is `copy_b(..).follow(true)`.
 
   DepthOk (every key shorter than usize::MAX components) is no invariant of the model (nothing bounds
   the depth `mkdir_p` can build) and stays a per-step side condition (`DepthDom`); it follows from
